@@ -256,6 +256,24 @@ def prefixes : List String := ["names."]
       if s.isEmpty then "" else
       ",".intercalate ((s.splitOn ",").mergeSort fun a b => decide (a ≤ b))
     | none => "bad-case"
+  else if op == "names.tagnoext" then
+    -- `bcp47ToOtf` on a tag without extension; x/text's answers (kind, raw language, script) come
+    -- from the Go side
+    match (getField fs "k").bind String.toNat?, (getField fs "rl").bind hexNats, (getField fs "sc").bind hexNats with
+    | some k, some rl, some sc =>
+      let r := noExtToOtf Gen.otScripts Gen.otLangs k rl sc
+      natsHex r.1 ++ "|" ++ natsHex r.2
+    | _, _, _ => "bad-case"
+  else if op == "names.tagnf" then
+    -- prediction (C14_tag_noext_normal_form): the pair itself, twins replaced by the smaller tag
+    match (getField fs "s").bind hexNats, (getField fs "l").bind hexNats with
+    | some sc, some l => natsHex (nfTag scriptTwins sc) ++ "|" ++ natsHex (nfTag langTwins l)
+    | _, _ => "bad-case"
+  else if op == "names.tagkeep" then
+    -- prediction (C14_tag_noext_back): language and script of the tag survive bcp47ToOtf ∘ otfToBCP47
+    match getField fs "rl", getField fs "sc" with
+    | some rl, some sc => rl ++ "|" ++ sc
+    | _, _ => "bad-case"
   else "bad-op"
 
 def specStd : Array (List Nat) := Spec.standardTable.toArray
